@@ -1,6 +1,7 @@
 """C14 — assignment solver (qcelemental/util/scipy_hungarian.py): step-trace correspondence with the Lean
 Munkres model, the proved certificate checker run on the implementation's answers, and an independent
-Python oracle (brute force <= 8x8, dual bound beyond)."""
+Python oracle (brute force <= 8x8, dual bound beyond). Besides single matrices (random, exhaustive small, long-run
+structured tables) the solver is driven through call sequences mixing index-only and return_cost=True calls."""
 from __future__ import annotations
 
 import itertools
@@ -73,6 +74,7 @@ ASSUMPTIONS = [
     "float runs are held to optimality within 1e-9*max(1,max|cost|)*max(n,m) (float Munkres is only eps-optimal); integer and small-dyadic runs exactly",
     "the theorems are about the exact-rational model: partial and total correctness of Munkres (step invariants, termination within 4(n+m)^3+16 steps, n+1 passes of the step-4 loop, n+m+1 links of the step-5 path) are proved for all sizes over Rat; for float inputs whose arithmetic is not exact the implementation may deviate from the model (eps-optimality, and in principle non-termination) - that part is covered by the executed certificate with measured slack and the hang budget",
     "a mutation that changes the step sequence but still yields certified optimal answers is reported as a broken correspondence (VIOLATION ... no-failing-input-found), not as a property failure",
+    "call sequences keep at most the 8 preceding calls of one process as history; dependence on older calls or on another process/thread is not explored; whether the caller's matrix is left unmodified is counted (seq:input_modified) but not demanded",
 ]
 RULE = (
     "a case is one cost matrix (shape, dtype, entries). Exhaustive: every n x m matrix with 0<=n,m<=3 over {0,1,2} and every 4x4 0/1 matrix "
@@ -80,6 +82,15 @@ RULE = (
     "each with a full step-trace diff against the Lean model. Sampled from VERIF_SEED: integer/negative/boolean/dyadic-float/duplicated-row/"
     "duplicated-column/rectangular matrices up to 8x8 (trace diff + brute force), exact integer up to 40x40 (result diff + dual bound), real-valued up to "
     "40x40 (proved certificate checker in exact rationals + dual bound, brute force <= 8x8), and a refusal stream (inf/nan/str/object/1-d/3-d). "
+    "Long runs (block:longrun:*): structured 2..40 x 2..40 tables r_i + c_j +- w_i*p_j with monotone w, p (multiplicative/rank-one, Monge, squared "
+    "distances of two sorted value lists, (i+j+1)^2), also row/column-permuted, negated, sparsely perturbed, rectangular, as int64, /8 and "
+    "inexact float64 — the inputs on which Munkres needs ~n*m/(n+m) step calls per row+column (a 40x40 one ~1700 calls; counted under steps/(n+m):*), "
+    "with trace / result diff against the model or the proved certificate checker. Call sequences (seq:*): 2..6 consecutive calls on the live "
+    "module on matrices of one shape (or its transpose, sometimes another), dtype class and value range changing between calls (int64/int32/bool/"
+    "exact and inexact float64/a refused non-finite one), each call index-only (return_cost=False) or with return_cost=True; every answer is judged "
+    "by the property on its own (index-only answers: matching clauses and minimum total, brute force <= 8x8, beyond that against a dual-certified "
+    "total of the same matrix) and, on exactly representable matrices, compared with the stateless model; a failing call is recorded with the calls "
+    "that preceded it (shortened to the shortest tail that reproduces it in a fresh process) and replayed as that sequence. "
     "Distinct = distinct (shape,dtype,entries); non-trivial = the run leaves step 3 at least once (needs priming/augmenting/adjusting) or is refused."
 )
 LEVEL_TEXT = (
@@ -176,15 +187,20 @@ def _alarm(signum, frame):
     raise Timeout()
 
 
-def call_impl(arr, full=False, limit=20.0):
-    """-> ('ok', steps, rows, cols, reduced, states) | ('err', kind, msg) | ('hang', why)"""
+def call_impl(arr, full=False, limit=20.0, return_cost=True):
+    """-> ('ok', steps, rows, cols, reduced, states) | ('err', kind, msg) | ('hang', why)
+    return_cost=False is the plain index-only call `linear_sum_assignment(cost)`; reduced is then None"""
     H = hungarian()
     _Tr.steps, _Tr.states, _Tr.full = [], [], full
     old = signal.signal(signal.SIGALRM, _alarm)
     signal.setitimer(signal.ITIMER_REAL, limit)
     try:
-        (rows, cols), red = H.linear_sum_assignment(arr, return_cost=True)
-        return ("ok", "".join(_Tr.steps), np.asarray(rows), np.asarray(cols), np.asarray(red), list(_Tr.states))
+        if return_cost:
+            (rows, cols), red = H.linear_sum_assignment(arr, return_cost=True)
+            red = np.asarray(red)
+        else:
+            (rows, cols), red = H.linear_sum_assignment(arr), None
+        return ("ok", "".join(_Tr.steps), np.asarray(rows), np.asarray(cols), red, list(_Tr.states))
     except StepCap:
         return ("hang", f"more than {STEP_CAP} steps")
     except Timeout:
@@ -258,6 +274,8 @@ def canon_impl(res, full) -> str:
     if res[0] == "hang":
         return "hang|" + res[1]
     _, steps, rows, cols, red, states = res
+    if red is None:  # index-only call: nothing but the pairs comes back
+        return "|".join(["ok", steps, " ".join(f"{int(r)},{int(c)}" for r, c in zip(rows.tolist(), cols.tolist()))])
     head = "|".join(
         [
             "ok",
@@ -327,8 +345,11 @@ def valid_input(arr) -> bool:
     return arr.ndim == 2 and dt_code(arr) != "o" and bool(np.all(np.isfinite(arr)))
 
 
-def oracle(arr, res):
-    """The property, stated directly on the implementation's answer. Returns [(kind, message)]."""
+def oracle(arr, res, ref_total=None):
+    """The property, stated directly on the implementation's answer. Returns [(kind, message)].
+    An index-only answer (return_cost=False: res[4] is None) is held to the matching clauses only: min(n,m) pairs,
+    nothing repeated, rows increasing, total = minimum (brute force <= 8x8; beyond that against `ref_total`, the
+    total of an answer to the same matrix that passed this oracle's dual-bound certificate, when one is given)."""
     bad = []
     if not valid_input(arr):
         # refusal clause
@@ -344,6 +365,7 @@ def oracle(arr, res):
     if res[0] == "err":
         return [("oracle:accepts", f"finite numeric matrix refused: {res[1]}: {res[2]}")]
     _, steps, rows, cols, red, _ = res
+    index_only = red is None
     n, m = arr.shape
     k = min(n, m)
     exact = is_exact(arr)
@@ -351,6 +373,8 @@ def oracle(arr, res):
     scale = float(np.abs(cost).max()) if cost.size else 0.0
     tol = 0.0 if exact else 1e-9 * max(1.0, scale) * max(n, m, 1)
     # --- shape of the matching
+    if rows.ndim != 1 or cols.ndim != 1:
+        return [("oracle:matching", f"row/column indices have shapes {rows.shape}/{cols.shape}")]
     if len(rows) != k or len(cols) != k:
         return [("oracle:matching", f"{len(rows)} pairs returned, expected min(n,m)={k}")]
     if k and (rows.min() < 0 or rows.max() >= n or cols.min() < 0 or cols.max() >= m):
@@ -362,36 +386,40 @@ def oracle(arr, res):
     if bad:
         return bad
     # --- reduced matrix
-    if red.shape != arr.shape:
-        return [("oracle:reduced_shape", f"reduced has shape {red.shape}")]
-    if red.size and not np.all(np.isfinite(red)):
-        return [("oracle:reduced_nonneg", "reduced matrix has non-finite entries")]
-    if red.size and red.min() < 0:
-        bad.append(("oracle:reduced_nonneg", f"reduced matrix has a negative entry {red.min()!r}"))
-    if k and np.any(red[rows, cols] != 0):
-        bad.append(("oracle:reduced_zero_on_pairs", "reduced matrix is not zero on a chosen pair"))
-    if k:
-        D = cost - red
-        dev = D - D[:, :1] - D[:1, :] + D[0, 0]
-        if np.abs(dev).max() > tol:
-            bad.append(("oracle:reduced_rowcol", f"cost - reduced is not u_i + v_j (max deviation {np.abs(dev).max()!r})"))
+    if not index_only:
+        if red.shape != arr.shape:
+            return [("oracle:reduced_shape", f"reduced has shape {red.shape}")]
+        if red.size and not np.all(np.isfinite(red)):
+            return [("oracle:reduced_nonneg", "reduced matrix has non-finite entries")]
+        if red.size and red.min() < 0:
+            bad.append(("oracle:reduced_nonneg", f"reduced matrix has a negative entry {red.min()!r}"))
+        if k and np.any(red[rows, cols] != 0):
+            bad.append(("oracle:reduced_zero_on_pairs", "reduced matrix is not zero on a chosen pair"))
+        if k:
+            D = cost - red
+            dev = D - D[:, :1] - D[:1, :] + D[0, 0]
+            if np.abs(dev).max() > tol:
+                bad.append(("oracle:reduced_rowcol", f"cost - reduced is not u_i + v_j (max deviation {np.abs(dev).max()!r})"))
     # --- optimality
     tot = cost[rows, cols].sum() if k else 0
     if k and n <= 8 and m <= 8:
         wide = cost if n <= m else cost.T
-        wred = red if n <= m else red.T
         P = perms(k, max(n, m))
         sums = wide[np.arange(k)[None, :], P].sum(axis=1)
         best = sums.min()
         if tot > best + tol or tot < best - tol:
-            bad.append(("oracle:optimal", f"total {tot!r} but brute-force minimum {best!r}"))
-        else:
+            bad.append(("oracle:optimal", f"total {tot!r} but brute-force minimum {best!r}" + (" (index-only call)" if index_only else "")))
+        elif not index_only:
             # every optimal assignment lies on the zeros of the reduced matrix
+            wred = red if n <= m else red.T
             opt = P[sums <= best + (0 if exact else tol * 1e-3)]
             on = wred[np.arange(k)[None, :], opt]
             if np.abs(on).max() > 4 * tol:
                 bad.append(("oracle:optima_on_zeros", f"an optimal assignment crosses a reduced entry {np.abs(on).max()!r}"))
-    if k and not bad:
+    elif k and index_only and ref_total is not None:
+        if tot > ref_total + tol or tot < ref_total - tol:
+            bad.append(("oracle:optimal", f"total {tot!r} of the index-only call but the certified minimum is {ref_total!r}"))
+    if k and not bad and not index_only:
         # dual bound (valid for any u, v): every complete assignment costs at least
         #   sum of the smaller side's potentials + the k smallest potentials of the larger side + k*min(residual,0)
         wide = cost if n <= m else cost.T
@@ -568,6 +596,127 @@ def gen_refusals(ctx):
         yield "refuse:" + which, "T", a
 
 
+def _sorted_distinct(rng, n, hi):
+    """n strictly increasing positive integers"""
+    return sorted(rng.sample(range(1, max(hi, n + 1) + 1), n))
+
+
+def gen_longrun(ctx):
+    """Long runs: Monge-type / multiplicative tables  cost[i,j] = r_i + c_j +- w_i*p_j  (w, p monotone), the squared-distance
+    costs of the consumer (align.py) between two long value lists, and row/column-permuted, noisy, negated, rectangular and
+    non-integer variants. Random matrices need ~1 state transition per row+column; these need ~n*m/(n+m) times as many
+    (a 40x40 table about 1700 step calls, 21 per row+column), so anything that depends on the *number* of step-4/5/6 rounds
+    (a bounded loop, a path/work buffer sized from the shape, accumulated round-off) only shows here."""
+    rng = ctx.rng
+    total = ctx.scale(300, 1500)
+    for t in range(total):
+        # a third small (full trace + brute force), a third medium, a third large
+        lo, hi = ((2, 8), (9, 22), (23, 40))[t % 3]
+        n = rng.randint(lo, hi)
+        m = n
+        if rng.random() < 0.4:
+            m = rng.randint(max(2, n - 6), min(40, n + 6))
+        kind = rng.choice(["outer", "outer", "outer_rnd", "monge", "monge", "sqdist", "sumsq"])
+        if kind == "outer":
+            a0, b0 = rng.choice([0, 1, 1, 1, 3]), rng.choice([0, 1, 1, 1, 3])
+            s1, s2 = rng.choice([1, 1, 2]), rng.choice([1, 1, 3])
+            w = [a0 + s1 * i for i in range(n)]
+            p = [b0 + s2 * j for j in range(m)]
+            a = np.outer(w, p)
+        elif kind == "outer_rnd":
+            top = rng.choice([n + m, 60, 200])
+            a = np.outer(_sorted_distinct(rng, n, top), _sorted_distinct(rng, m, top))
+        elif kind == "monge":
+            top = rng.choice([n + m, 50])
+            w, p = _sorted_distinct(rng, n, top), _sorted_distinct(rng, m, top)
+            r = [rng.randint(0, 30) for _ in range(n)]
+            c = [rng.randint(0, 30) for _ in range(m)]
+            sgn = rng.choice([1, -1])
+            a = np.array([[r[i] + c[j] + sgn * w[i] * p[j] for j in range(m)] for i in range(n)], dtype=np.int64)
+        elif kind == "sqdist":
+            # (x_i - y_j)^2 = x_i^2 + y_j^2 - 2 x_i y_j: what align.py builds from two sorted lists of distinct values
+            x = _sorted_distinct(rng, n, rng.choice([2 * (n + m), 100]))
+            y = _sorted_distinct(rng, m, rng.choice([2 * (n + m), 100]))
+            off = rng.choice([0, 0, max(x) + 1])
+            a = np.array([[(x[i] - (y[j] + off)) ** 2 for j in range(m)] for i in range(n)], dtype=np.int64)
+        else:
+            a = np.array([[(i + j + 1) ** 2 for j in range(m)] for i in range(n)], dtype=np.int64)
+        a = np.asarray(a, dtype=np.int64)
+        if rng.random() < 0.25:
+            a = -a
+        if rng.random() < 0.3:
+            a = a[rng.sample(range(n), n)][:, rng.sample(range(m), m)]
+        if rng.random() < 0.2:
+            # sparse noise: breaks some of the structure's ties, keeps the long run
+            a = a + np.array([[rng.randint(1, 2) if rng.random() < 0.1 else 0 for _ in range(m)] for _ in range(n)], dtype=np.int64)
+        a = np.ascontiguousarray(a)
+        form = rng.choice(["int", "int", "int", "dyadic", "real", "real"])
+        if form == "dyadic":
+            a = a / 8.0
+        elif form == "real":
+            a = a * rng.choice([0.1, 1.0 / 3.0, 0.37, 1e-3])
+        if form == "real":
+            op = "K"  # float run: proved certificate checker on the answer, in exact rationals
+        elif max(n, m) <= 8:
+            op = "T"  # full step trace against the model
+        elif n * m <= (900 if ctx.thorough else 1024):
+            op = "R"  # steps, pairs, reduced against the model
+        else:
+            op = "K"
+        yield f"longrun:{kind}:{form}", op, a
+
+
+SEQ_HISTORY = 8  # calls of history kept with every call of a sequence (what a replay re-issues first)
+
+
+def _seq_matrix(rng, n, m, kind):
+    if kind == "int":
+        hi = rng.choice([1, 3, 9, 1000])
+        return np.array([[rng.randint(0, hi) for _ in range(m)] for _ in range(n)], dtype=np.int64)
+    if kind == "int32neg":
+        hi = rng.choice([2, 50])
+        return np.array([[rng.randint(-hi, hi) for _ in range(m)] for _ in range(n)], dtype=np.int32)
+    if kind == "bool":
+        return np.array([[rng.random() < 0.5 for _ in range(m)] for _ in range(n)], dtype=bool)
+    if kind == "dyadic":
+        return np.array([[rng.randint(-24, 24) / 8.0 for _ in range(m)] for _ in range(n)], dtype=np.float64)
+    if kind == "unit":
+        return np.array([[rng.random() for _ in range(m)] for _ in range(n)], dtype=np.float64)
+    if kind == "real":
+        s = rng.choice([1.0, 3.0, 100.0])
+        return np.array([[rng.uniform(-s, s) for _ in range(m)] for _ in range(n)], dtype=np.float64)
+    if kind == "nonfinite":
+        a = np.array([[float(rng.randint(0, 5)) for _ in range(m)] for _ in range(n)], dtype=np.float64)
+        a[rng.randrange(n), rng.randrange(m)] = rng.choice([float("inf"), float("nan")])
+        return a
+    raise ValueError(kind)
+
+
+def gen_sequences(ctx):
+    """Call sequences in one process. A sequence is 2..6 consecutive calls on matrices of one shape (sometimes the transposed
+    shape, occasionally another one), the dtype / value range changing from call to call (int64, int32, bool, exact and inexact
+    float64, now and then a refused non-finite matrix), each call either index-only `linear_sum_assignment(cost)` or with
+    return_cost=True. Every answer is judged on its own by the property; anything a call inherits from an earlier one
+    (recycled work arrays, cached shapes/dtypes, results) can only show in such a stream."""
+    rng = ctx.rng
+    kinds = ["int", "int", "int32neg", "bool", "dyadic", "unit", "unit", "real", "real"]
+    for _ in range(ctx.scale(700, 7000)):
+        if rng.random() < 0.12:
+            n, m = rng.randint(9, 20), rng.randint(9, 20)
+        else:
+            n, m = rng.randint(1, 8), rng.randint(1, 8)
+        if rng.random() < 0.4:
+            m = n
+        p_index_only = rng.choice([1.0, 0.7, 0.7, 0.3])
+        calls = []
+        for _c in range(rng.randint(2, 6)):
+            r = rng.random()
+            sh = (n, m) if r < 0.72 else (m, n) if r < 0.92 else (rng.randint(1, 8), rng.randint(1, 8))
+            kind = "nonfinite" if rng.random() < 0.03 else rng.choice(kinds)
+            calls.append((kind, _seq_matrix(rng, sh[0], sh[1], kind), rng.random() >= p_index_only))
+        yield calls
+
+
 # --------------------------------------------------------------------------------------
 
 
@@ -619,12 +768,146 @@ def impl_phase(ctx, out: Outcome, tag, op, arr, res=None):
         out.count("steps:" + ("0" if not steps else "<=4" if len(steps) <= 4 else "<=12" if len(steps) <= 12 else "<=50" if len(steps) <= 50 else ">50"))
         if "4" in steps:
             out.nontrivial(key_of(arr))
+        if arr.ndim == 2 and arr.size:
+            q = len(steps) / float(sum(arr.shape))
+            out.count("steps/(n+m):" + ("<=2" if q <= 2 else "<=5" if q <= 5 else "<=10" if q <= 10 else "<=15" if q <= 15 else ">15"))
     else:
         out.count("outcome:" + ci.split("#")[0][:40])
         out.nontrivial(key_of(arr))
     for kind, msg in oracle(arr, res):
         out.violations.append(Finding(kind, {"matrix": case_json(arr), "op": op}, observed=ci[:2000], detail=msg))
     return res, ci
+
+
+def _dt_class(arr):
+    return {"b": "int", "i": "int", "f": "float"}.get(dt_code(arr), "other") if valid_input(arr) else "refused"
+
+
+def _seq_case(hist, arr, rc):
+    return {"op": "S", "matrix": case_json(arr), "return_cost": bool(rc),
+            "history": [{"matrix": case_json(a), "return_cost": bool(r)} for a, r in hist]}
+
+
+def _seq_limit(arr):
+    return 3.0 if arr.size <= 16 else 10.0 if arr.size <= 100 else 120.0
+
+
+def _seq_judge(arr, keep, rc, res):
+    """the property on one call of a sequence -> (verdicts, extra single-matrix findings of the reference call)"""
+    ref_total, extra = None, []
+    if res[0] == "ok" and not rc and valid_input(keep) and max(keep.shape) > 8 and min(keep.shape) > 0:
+        # beyond brute force: the minimum is taken from an answer to the same matrix that carries a tight dual certificate
+        ref = call_impl(keep.copy(), limit=_seq_limit(keep), return_cost=True)
+        extra = oracle(keep, ref)
+        if ref[0] == "ok" and not extra:
+            cost = keep.astype(np.int64) if keep.dtype == np.dtype(bool) else keep
+            ref_total = cost[ref[2], ref[3]].sum()
+    return oracle(keep, res, ref_total=ref_total), extra
+
+
+def seq_phase(ctx, out: Outcome, seqs, hung):
+    """the call sequences: every call is issued on the live module in order and judged by the property on its own.
+    Returns [(hist, keep, rc, res, ci)] for the model diff."""
+    from collections import deque
+
+    recent = deque(maxlen=SEQ_HISTORY)
+    log = []
+    prev = None
+    for calls in seqs:
+        out.count("seq:sequences")
+        for kind, arr, rc in calls:
+            if hung():
+                return log
+            keep = arr.copy()
+            hist = tuple(recent)
+            res = call_impl(arr, full=False, limit=_seq_limit(arr), return_cost=rc)
+            ci = canon_impl(res, full=False)
+            out.evaluations += 1
+            out.count("block:seq:" + kind)
+            out.count("seq:call:" + ("return_cost" if rc else "index-only"))
+            cur = (_dt_class(keep), keep.shape, rc)
+            if prev is not None:
+                rel = "same-shape" if prev[1] == cur[1] else "transposed-shape" if prev[1] == cur[1][::-1] else "other-shape"
+                out.count("seq:after:other-shape" if rel == "other-shape" else f"seq:after:{prev[0]}->{cur[0]}:{rel}")
+                if not prev[2] and not rc and rel != "other-shape" and prev[0] != cur[0]:
+                    out.nontrivial("seq" + key_of(keep) + key_of(recent[-1][0]))
+            prev = cur
+            if res[0] == "hang":
+                out.count("hangs")
+            if not (arr.shape == keep.shape and arr.dtype == keep.dtype and arr.tobytes() == keep.tobytes()):
+                out.count("seq:input_modified")  # not part of the property; the answer is judged against the matrix as given
+            verdicts, extra = _seq_judge(arr, keep, rc, res)
+            for k_, msg in verdicts:
+                out.violations.append(Finding(k_, _seq_case(hist, keep, rc), observed=ci[:2000],
+                                              detail=msg + f" [call #{len(hist) + 1} of a stream; return_cost={rc}]"))
+            for k_, msg in extra:
+                out.violations.append(Finding(k_, {"matrix": case_json(keep), "op": "K"}, detail=msg))
+            log.append((hist, keep, rc, (res[0],), ci))
+            recent.append((keep, rc))
+    return log
+
+
+def seq_diff(out: Outcome, log, lines):
+    """model (stateless) vs the implementation's answer inside a sequence: status, step sequence, pairs (+ reduced)"""
+    for (hist, keep, rc, res, ci), ml in zip(log, lines):
+        if len(hist) >= 2 and not rc and keep.size >= 4 and hist[-1][0].shape == keep.shape and hist[-1][0].dtype != keep.dtype:
+            out.sample({"block": "seq", "preceding_calls": [{"shape": list(a.shape), "dtype": str(a.dtype), "return_cost": r} for a, r in hist[-2:]],
+                        "input": case_json(keep) if keep.size <= 16 else {"shape": list(keep.shape), "dtype": str(keep.dtype)}, "return_cost": rc,
+                        "impl": ci[:120], "model": (ml or "(inexact floats: judged by the oracle only)")[:120]}, limit=12)
+        if ml is None or res[0] == "hang":
+            continue
+        a, b = ml.split("|"), ci.split("|")
+        if a[0] == "ok" and b[0] == "ok":
+            same = a[:len(b)] == b
+        else:
+            same = a[:2] == b[:2]
+        if not same:
+            out.mismatches.append(Finding("mismatch", _seq_case(hist, keep, rc), observed=ci[:3000], expected=ml[:3000],
+                                          detail="a call inside a sequence answers differently from the (stateless) Lean Munkres model"))
+
+
+def _fresh_kinds(case):
+    """violation kinds of one sequence case in a fresh interpreter (same QCEL_REPO); None if that could not be run"""
+    import json
+    import os
+    import subprocess
+    import sys
+
+    try:
+        p = subprocess.run([sys.executable, os.path.abspath(__file__)], input=json.dumps(case), capture_output=True, text=True, timeout=900)
+        return set(json.loads(p.stdout.strip().splitlines()[-1]))
+    except Exception:  # noqa
+        return None
+
+
+def _shorten_history(f: Finding):
+    """keep the shortest tail of the history with which the failure shows in a fresh process"""
+    hist = f.case.get("history", [])
+    for ln in sorted({0, 1, 2, 3, len(hist)}):
+        if ln > len(hist):
+            continue
+        trial = dict(f.case, history=hist[len(hist) - ln:])
+        kinds = _fresh_kinds(trial)
+        if kinds is None:
+            return
+        if f.kind in kinds:
+            f.case = trial
+            f.detail += f" [shows in a fresh process after the {ln} preceding call(s) kept in the case]"
+            return
+    f.detail += f" [did NOT show in a fresh process with the {len(hist)} preceding calls kept: depends on earlier calls of this run]"
+
+
+def _seq_replay_verdicts(case):
+    """re-issue the history, then the call; -> (res, ci, verdicts of the last call)"""
+    for h in case.get("history", []):
+        a = case_array(h["matrix"])
+        call_impl(a, full=False, limit=_seq_limit(a), return_cost=bool(h["return_cost"]))
+    arr = case_array(case["matrix"])
+    keep = arr.copy()
+    rc = bool(case["return_cost"])
+    res = call_impl(arr, full=False, limit=_seq_limit(arr), return_cost=rc)
+    verdicts, _ = _seq_judge(arr, keep, rc, res)
+    return keep, rc, res, canon_impl(res, full=False), verdicts
 
 
 def cert_phase(out: Outcome, op, arr, res, ci, cert_line):
@@ -651,6 +934,9 @@ def diff_phase(out: Outcome, tag, op, arr, res, ci, model_line):
     if tag.startswith(("rnd8", "int40", "refuse", "replay")) or (tag.startswith("real") and arr.size <= 4):
         out.sample({"block": tag, "input": case_json(arr) if arr.size <= 16 else {"shape": list(arr.shape), "dtype": str(arr.dtype)},
                     "impl": ci[:160], "model": (model_line or "")[:160]}, limit=8)
+    if tag.startswith("longrun") and arr.size > 64:
+        out.sample({"block": tag, "input": {"shape": list(arr.shape), "dtype": str(arr.dtype), "first_row": [ent(x) for x in arr[0].tolist()][:6]},
+                    "impl": ci[:80], "step_calls": len(ci.split("|")[1]) if ci.startswith("ok|") else None, "model": (model_line or "")[:80]}, limit=10)
     if model_line is None or op not in ("T", "R") or res[0] == "hang" or model_line == ci:
         return
     a, b = model_line.split("|"), ci.split("|")
@@ -681,17 +967,26 @@ def run(ctx: Ctx) -> Outcome:
 
     out = Outcome()
     cases = []
-    for g in (gen_real, gen_exhaustive, gen_small_random, gen_large_exact, gen_refusals):
+    for g in (gen_real, gen_exhaustive, gen_small_random, gen_large_exact, gen_refusals, gen_longrun):
         cases.extend(g(ctx))
-    pool = ThreadPoolExecutor(NPROC + 1)
+    seqs = list(gen_sequences(ctx))
+    pool = ThreadPoolExecutor(2 * NPROC + 2)
     # the Lean model runs (in NPROC driver processes) while the implementation is evaluated in this thread
-    tidx = [i for i, (tag, op, arr) in enumerate(cases) if op in ("T", "R")]
+    tidx = [i for i, (tag, op, arr) in enumerate(cases) if op in ("T", "R") and not tag.startswith("longrun")]
+    lidx = [i for i, (tag, op, arr) in enumerate(cases) if op in ("T", "R") and tag.startswith("longrun")]
     tfut = []
+    sfut = None
     if ctx.model_available:
         per = (len(tidx) + NPROC - 1) // NPROC
         for k in range(NPROC):
             part = tidx[k * per:(k + 1) * per]
             tfut.append((part, pool.submit(_run_driver, ctx, [enc_solve(cases[i][1], cases[i][2]) for i in part], f"t{k}")))
+        for k in range(NPROC):  # the long runs are the model's most expensive lines: dealt round-robin to their own processes
+            part = lidx[k::NPROC]
+            tfut.append((part, pool.submit(_run_driver, ctx, [enc_solve(cases[i][1], cases[i][2]) for i in part], f"l{k}")))
+        # sequence calls on matrices the model follows exactly (or refuses)
+        smask = [(not valid_input(a)) or is_exact(a) for calls in seqs for _, a, _ in calls]
+        sfut = pool.submit(_run_driver, ctx, [enc_solve("R", a) for calls in seqs for _, a, _ in calls if (not valid_input(a)) or is_exact(a)], "s")
     done = {}
     # K cases first: their answers go to the certificate checker in one batch
     kidx, klines = [], []
@@ -709,11 +1004,15 @@ def run(ctx: Ctx) -> Outcome:
         if op != "K" and not hung():
             res, ci = impl_phase(ctx, out, tag, op, arr)
             done[i] = (res if op != "T" else (res[0],), ci)  # traces are kept only in canonical form
+    seqlog = seq_phase(ctx, out, seqs, hung)
     model = {}
     for part, f in tfut:
         for i, l in zip(part, f.result()):
             model[i] = l
     cert = dict(zip(kidx, kfut.result())) if kfut is not None else {}
+    if sfut is not None:
+        it = iter(sfut.result())
+        seq_diff(out, seqlog, [next(it) if ex else None for ex in smask][:len(seqlog)])
     pool.shutdown()
     if hung():
         out.notes.append(f"stream cut short after {HANG_BUDGET} non-terminating calls: {len(done)} of {len(cases)} cases evaluated")
@@ -738,13 +1037,32 @@ def run(ctx: Ctx) -> Outcome:
 
     out.violations.sort(key=_sz)
     out.mismatches.sort(key=_sz)
+    if out.violations and isinstance(out.violations[0].case, dict) and out.violations[0].case.get("op") == "S":
+        _shorten_history(out.violations[0])
     out.exhaustive = False
     out.notes.append("exhaustive: all n x m (0<=n,m<=3) over {0,1,2} and all 65536 4x4 0/1 matrices with full step traces; the rest sampled from VERIF_SEED")
+    d = out.distribution
+    out.notes.append("long runs (block:longrun:*): {} structured matrices up to 40x40; over all blocks {} answers took more than 10 step calls per row+column, {} more than 15 "
+                     "(random matrices need about 1-2)".format(sum(v for k_, v in d.items() if k_.startswith("block:longrun")),
+                                                             d.get("steps/(n+m):<=15", 0) + d.get("steps/(n+m):>15", 0), d.get("steps/(n+m):>15", 0)))
+    out.notes.append("call sequences (seq:*): {} sequences, {} index-only and {} return_cost calls issued in order on the live module, each answer judged on its own; "
+                     "{} index-only calls directly followed an index-only call of the same or transposed shape with another dtype class".format(
+                         d.get("seq:sequences", 0), d.get("seq:call:index-only", 0), d.get("seq:call:return_cost", 0),
+                         sum(1 for k_ in out.distinct if isinstance(k_, str) and k_.startswith("seq"))))
     return out
 
 
 def replay(ctx: Ctx, case) -> Outcome:
     out = Outcome()
+    if case.get("op") == "S":
+        keep, rc, res, ci, verdicts = _seq_replay_verdicts(case)
+        out.evaluations += 1 + len(case.get("history", []))
+        hist = tuple((case_array(h["matrix"]), bool(h["return_cost"])) for h in case.get("history", []))
+        for k_, msg in verdicts:
+            out.violations.append(Finding(k_, _seq_case(hist, keep, rc), observed=ci[:2000], detail=msg))
+        if ctx.model_available and ((not valid_input(keep)) or is_exact(keep)):
+            seq_diff(out, [(hist, keep, rc, (res[0],), ci)], _run_driver(ctx, [enc_solve("R", keep)], "r"))
+        return out
     arr = case_array(case["matrix"])
     op = case.get("op", "T")
     res, ci = impl_phase(ctx, out, "replay", op, arr)
@@ -757,3 +1075,11 @@ def replay(ctx: Ctx, case) -> Outcome:
     cert_phase(out, op, arr, res, ci, cert_line)
     diff_phase(out, "replay", op, arr, res, ci, model_line)
     return out
+
+
+if __name__ == "__main__":
+    # fresh-process evaluation of one sequence case (used to shorten the recorded history): case JSON on stdin -> kinds on stdout
+    import json
+    import sys
+
+    print(json.dumps(sorted({k_ for k_, _ in _seq_replay_verdicts(json.loads(sys.stdin.read()))[4]})))
